@@ -163,7 +163,7 @@ func TestVerifC25(t *testing.T) {
 		"for every other vector the root clause only demands that the gate (ForbiddenCommandError) never stops uid 0")
 	c.Assume("the hook context is nil: Run only stores it in the command structs, nothing reads it before Execute")
 
-	os.Unsetenv("GO_FLAGS_COMPLETION") // go-flags would os.Exit(0) in completion mode
+	os.Unsetenv("GO_FLAGS_COMPLETION")                // go-flags would os.Exit(0) in completion mode
 	defer debug.SetGCPercent(debug.SetGCPercent(400)) // Run rebuilds its parser per call: allocation-bound
 
 	sf, err := c25Discover()
@@ -205,10 +205,10 @@ func TestVerifC25(t *testing.T) {
 		surface = append(surface, fmt.Sprintf("%s%s [%s] positionals>=%d max=%d%s", l.name(), h, strings.Join(os_, " "), l.minPos(), l.maxPos(), un))
 	}
 	c.Note("discovered_surface", surface)
-	c.Count("commands_registered", len(sf.Names))
-	c.Count("executable_commands_incl_subcommands", len(sf.Leaves))
-	c.Count("options_discovered", nOpts)
-	c.Count("commands_unmodelled_by_wellformed_generator", nUnmodelled)
+	c.Max("max_commands_registered", len(sf.Names))
+	c.Max("max_executable_commands_incl_subcommands", len(sf.Leaves))
+	c.Max("max_options_discovered", nOpts)
+	c.Max("max_commands_unmodelled_by_wellformed_generator", nUnmodelled)
 	for a := range c25Allowed {
 		if _, ok := commands[a]; !ok {
 			c.Count("allowed_names_not_registered", 1)
